@@ -28,6 +28,7 @@ MODULES = ["LbfgsbVerif.Props.C15"]
 PTS = [np.array([0.5, -1.25]), np.array([2.0, 0.75]), np.array([-0.0, 3.0])]
 LB = np.array([-4.0, -4.0])
 UB = np.array([4.0, 3.0])  # PTS[2] sits on the upper bound (one-sided stencils)
+# TODO second alphabet with a degenerate side
 SCALES = [0.25, 3.0]
 MODES = ["callable", "2-point", "3-point", "cs", None]
 
@@ -85,7 +86,7 @@ def run_python(mode, hist) -> Tuple[List[str], List[str]]:
     """returns (driver op lines, expected output lines) for one history on the real wrapper"""
     r = Rec(mode)
     sf = r.sf
-    ops = [f"sf.new {'callable' if mode == 'callable' else 'fd'} {vhex(PTS[0])}"]
+    ops = [f"sf.new {'callable' if mode == 'callable' else 'fd'} {vhex(PTS[0])} {vhex(LB)} {vhex(UB)}"]
     exp = ["ok"]
     last = None
     mutc = 0
@@ -191,9 +192,20 @@ def table_lines() -> List[str]:
 def fd_table(mode) -> List[str]:
     import lbfgsb.scalar_function as sfm
     lines = []
+    real = sfm.approx_derivative
+    raw = []
+
+    def spy(*a, **k):
+        raw.append(real(*a, **k))
+        return raw[-1]
     for p in PTS:
         r = Rec(mode)
-        g = r.sf.grad(p.copy())
+        sfm.approx_derivative = spy
+        try:
+            r.sf.grad(p.copy())
+        finally:
+            sfm.approx_derivative = real
+        g = raw[-1]  # what the differencing routine returned (the model post-processes it)
         fcalls = [c[1] for c in r.calls if c[0] == "F"]
         # first call is F(p) itself, the rest are the stencil
         pts = fcalls[1:]
